@@ -453,7 +453,14 @@ func (t *fnTrans) vc(o *Obligation, weakIx bool) string {
 	for _, q := range t.modelQueries() {
 		b.WriteString("(get-value (" + q + "))\n")
 	}
-	return b.String()
+	text := b.String()
+	if strings.Count(text, "(fieldaddr ") >= 2 {
+		// the address of a field determines the object and the field (two field addresses are equal only if both agree)
+		ax := "(declare-fun fieldaddr_id (Int) Int)\n(declare-fun fieldaddr_obj (Int) Int)\n" +
+			"(assert (forall ((fi Int) (fr Int)) (! (and (= (fieldaddr_id (fieldaddr fi fr)) fi) (= (fieldaddr_obj (fieldaddr fi fr)) fr)) :pattern ((fieldaddr fi fr)))))\n"
+		text = strings.Replace(text, "(declare-fun unix (Int Int) Int)\n", "(declare-fun unix (Int Int) Int)\n"+ax, 1)
+	}
+	return text
 }
 
 // modelQueries: terms whose values describe the inputs in a counterexample.
